@@ -37,7 +37,10 @@ Names3 == Strs(Sigma, 3)                                  \* all names of length
 LongNames == { <<"a",".","b">>, <<"x",".","a",".","b">>, <<"a",".","b",".">>, <<"A",".","B">>, <<"b","a",".","b">>,
                <<"a",".","b","a",".","b">>, <<"b",".","a",".","b">>, <<"a","-","b">>, <<"a","_","b">>, <<"a","b","a","b">>,
                <<"1","a",".","b">>, <<"a","1",".","b">>, <<"a",".","b",".","a">>, <<"B","A">>, <<"a","B",".">>,
-               <<"a",".",".">>, <<"-","a",".","b">>, <<"1","-","a">> }
+               <<"a",".",".">>, <<"-","a",".","b">>, <<"1","-","a">>,
+               \* upper case next to every other character class (a lower-casing shortcut must leave them alone)
+               <<"A","_","b">>, <<"a","_","B">>, <<"B","_">>, <<"A",".","a","_","b">>, <<"A","-","b">>, <<"A","1",".","b">>,
+               <<"B","1">>, <<"A","_","1">> }
 NameUniverse == Names3 \cup LongNames \cup { <<>> }
 NameSeq == SetToSeq(NameUniverse)
 
@@ -79,10 +82,12 @@ Draw == /\ Mode = "random"
 Next == Grow \/ Draw
 Spec == Init /\ [][Next]_vars
 
+UpFirst(s) == [i \in 1..Len(s) |-> IF i = 1 /\ s[i] = "a" THEN "A" ELSE IF i = 1 /\ s[i] = "b" THEN "B" ELSE s[i]]
 NamesFor == IF Mode = "pairs" THEN NameSeq
             ELSE SetToSeq(LongNames \cup Names3
                    \cup UNION { {set.pats[i], <<"a",".">> \o set.pats[i], <<"a">> \o set.pats[i], set.pats[i] \o <<".","a">>,
-                                 set.pats[i] \o <<".">>, Tail(set.pats[i])} : i \in 1..Len(set.pats) })
+                                 set.pats[i] \o <<".">>, Tail(set.pats[i]), UpFirst(set.pats[i]),
+                                 <<"B",".">> \o set.pats[i]} : i \in 1..Len(set.pats) })
 
 (* ---------------- properties ---------------- *)
 ImplRefines == \A i \in 1..Len(NamesFor) : ImplM(set, NamesFor[i]) = SetM(set, NamesFor[i])
